@@ -462,12 +462,18 @@ Definition gcon (k d : Z) (tau : simplex) : simplex := adds k (del d tau).
 Lemma gcon_In : forall k d tau y, In y (gcon k d tau) <-> y = k \/ (In y tau /\ d <> y).
 Proof. intros; unfold gcon; rewrite adds_In, del_In; tauto. Qed.
 
-Lemma contract_loop_ok : forall T k d, Inv T ->
-  let R := eloop (gcon k d) (t0 T d) T in
-  Inv R /\ forall r, r <> [] ->
+Lemma contract_loop_gen : forall (ins : list simplex -> simplex -> list simplex) (P : list simplex -> Prop)
+  (P_erase : forall T tau, P T -> P (erase_maximal T tau))
+  (ins_props : forall T s, P T ->
+    P (ins T s) /\ (forall r, In r (ins T s) -> In r T \/ r = s) /\ (forall r, In r T -> ~ incl r s -> In r (ins T s))
+    /\ (s <> [] -> exists r0, In r0 (ins T s) /\ incl s r0 /\ (r0 = s \/ In r0 T)))
+  T k d, P T ->
+  let R := loop ins (gcon k d) (t0 T d) T in
+  P R /\ forall r, r <> [] ->
     (Mem R r <-> (exists rho, In rho T /\ ~ In d rho /\ incl r rho) \/ (exists t, In t T /\ In d t /\ incl r (gcon k d t))).
 Proof.
-  intros T k d HI R. destruct (eloop_ok (gcon k d) (t0 T d) T HI) as [H1 H2].
+  intros ins P P_erase ins_props T k d HI R.
+  destruct (loop_ok ins P P_erase ins_props (gcon k d) (t0 T d) T HI) as [H1 H2].
   { intros t t' _ _ Hi y Hy. apply gcon_In. pose proof (Hi y Hy) as Hy'. apply gcon_In in Hy. destruct Hy as [->|[Ha Hb]]; auto. }
   split; auto. intros r Hr. unfold R. rewrite (H2 r Hr), MemX_t0. split.
   - intros [H|[t [Ht Hi]]]; auto. right. apply t0_In in Ht. exists t; tauto.
@@ -637,4 +643,205 @@ Proof.
         rewrite (L2 r Hr Hn). tauto.
     + split; auto. intros r Hr. split; [|tauto]. intros H; split; auto. intros Hi. destruct H as [t [Ht Hrt]].
       assert (has_v T v = true) by (apply has_v_iff; exists t; split; auto). congruence.
+Qed.
+
+(* ------------------------------------------------------------------ the specification side of a contraction *)
+Definition Rep (T : list simplex) (K : cplx) : Prop := forall r, r <> [] -> (K r = true <-> Mem T r).
+
+Lemma spec_contract_true : forall K d k r, d <> k ->
+  (spec_contract K d k r = true <->
+   ~ In d r /\ (K r = true \/ (In k r /\ (K (d :: del k r) = true \/ K (d :: r) = true)))).
+Proof.
+  intros K d k r Hdk. unfold spec_contract. destruct (Z.eqb d k) eqn:E; [apply Z.eqb_eq in E; contradiction|].
+  destruct (memv d r) eqn:Ed.
+  - apply memv_In in Ed. split; [discriminate|tauto].
+  - apply memv_false in Ed. destruct (memv k r) eqn:Ek.
+    + apply memv_In in Ek. rewrite !orb_true_iff. tauto.
+    + apply memv_false in Ek. tauto.
+Qed.
+
+Lemma contract_final : forall T K R k d, Rep T K ->
+  (forall r, r <> [] ->
+    (Mem R r <-> (exists rho, In rho T /\ ~ In d rho /\ incl r rho) \/ (exists t, In t T /\ In d t /\ incl r (gcon k d t)))) ->
+  Rep R (spec_contract K d k).
+Proof.
+  intros T K R k d HK HR r Hr. rewrite (HR r Hr). destruct (Z.eq_dec d k) as [->|Hdk].
+  - unfold spec_contract. rewrite Z.eqb_refl, (HK r Hr). split.
+    + intros [t [Ht Hi]]. destruct (memv k t) eqn:E.
+      * apply memv_In in E. right. exists t; repeat split; auto. intros y Hy. apply gcon_In.
+        destruct (Z.eq_dec y k) as [->|Hn]; auto.
+      * apply memv_false in E. left. exists t; auto.
+    + intros [[t [Ht [_ Hi]]]|[t [Ht [Hd Hi]]]]; exists t; split; auto.
+      intros y Hy. apply Hi in Hy. apply gcon_In in Hy. destruct Hy as [->|[Hy _]]; auto.
+  - rewrite (contract_spec_equiv T k d r Hdk Hr), (spec_contract_true K d k r Hdk).
+    assert (N1 : d :: del k r <> []) by congruence. assert (N2 : d :: r <> []) by congruence.
+    rewrite (HK r Hr), (HK _ N1), (HK _ N2). tauto.
+Qed.
+
+Lemma contract_absent : forall T K k d, Rep T K -> (forall t, In t T -> ~ In d t) -> Rep T (spec_contract K d k).
+Proof.
+  intros T K k d HK Hab r Hr. destruct (Z.eq_dec d k) as [->|Hdk].
+  - unfold spec_contract. rewrite Z.eqb_refl. apply HK; auto.
+  - rewrite (spec_contract_true K d k r Hdk).
+    assert (N1 : d :: del k r <> []) by congruence. assert (N2 : d :: r <> []) by congruence.
+    rewrite (HK r Hr), (HK _ N1), (HK _ N2). split.
+    + intros [Hd [H|[Hk [[t [Ht Hi]]|[t [Ht Hi]]]]]]; auto; exfalso; apply (Hab t Ht); apply Hi; left; auto.
+    + intros H. split; auto. intros Hd. destruct H as [t [Ht Hi]]. apply (Hab t Ht); auto.
+Qed.
+
+Lemma has_v_false : forall T v, has_v T v = false -> forall t, In t T -> ~ In v t.
+Proof.
+  intros T v H t Ht Hv. assert (has_v T v = true) by (apply has_v_iff; exists t; auto). congruence.
+Qed.
+
+(* the vertex the specification lets disappear is the one the algorithm lets disappear *)
+Lemma other_vertex : forall (c : bool) x y,
+  (if Z.eqb (if c then x else y) x then y else x) = (if c then y else x) \/
+  ((if c then x else y) = (if c then y else x)).
+Proof.
+  intros c x y. destruct c.
+  - rewrite Z.eqb_refl. auto.
+  - destruct (Z.eqb y x) eqn:E; auto. apply Z.eqb_eq in E. auto.
+Qed.
+
+(* ------------------------------------------------------------------ eager: every step refines the abstract operation *)
+Definition Rf (T : state) (K : cplx) : Prop := Inv T /\ Rep T K.
+
+Lemma Rep_ext : forall T K K', Rep T K -> (forall r, K' r = K r) -> Rep T K'.
+Proof. intros T K K' H E r Hr. rewrite E. apply H; auto. Qed.
+
+Lemma contraction_refines : forall T K x y, Rf T K ->
+  Rf (fst (contraction T x y)) (spec_contract K (if Z.eqb (snd (contraction T x y)) x then y else x) (snd (contraction T x y))).
+Proof.
+  intros T K x y [HI HK]. unfold contraction.
+  destruct (has_v T x) eqn:Hx; cbn [negb].
+  - destruct (has_v T y) eqn:Hy; cbn [negb fst snd].
+    + set (c := cnt T y <? cnt T x).
+      change (fold_left _ (t0 T (if c then y else x)) T)
+        with (loop insert_simplex (gcon (if c then x else y) (if c then y else x)) (t0 T (if c then y else x)) T).
+      destruct (contract_loop_gen insert_simplex Inv Inv_erase eager_ins_props T (if c then x else y) (if c then y else x) HI) as [H1 H2].
+      split; auto.
+      destruct (other_vertex c x y) as [E|E].
+      * rewrite E. eapply contract_final; eauto.
+      * (* x = y: the specification identifies a vertex with itself *)
+        assert (Exy : x = y) by (destruct c; congruence).
+        subst y. assert (E2 : (if c then x else x) = x) by (destruct c; auto). rewrite !E2 in *. rewrite Z.eqb_refl.
+        eapply contract_final; eauto.
+    + rewrite Z.eqb_refl. split; auto. apply contract_absent; auto. apply has_v_false; auto.
+  - cbn [fst snd]. split; auto. destruct (Z.eqb y x) eqn:E.
+    + apply Z.eqb_eq in E. subst y. apply contract_absent; auto. apply has_v_false; auto.
+    + apply contract_absent; auto. apply has_v_false; auto.
+Qed.
+
+Lemma step_refines : forall T K o, Rf T K -> Rf (fst (step T o)) (spec_step K o (snd (step T o))).
+Proof.
+  intros T K o [HI HK]. destruct o as [s|s|x|x y]; unfold step, step_gen.
+  - cbn [fst snd spec_step]. destruct (insert_simplex_props T s HI) as [H1 _]. split; auto.
+    intros r Hr. unfold spec_insert. rewrite orb_true_iff, andb_true_iff, (HK r Hr), nonempty_iff, subsetb_incl.
+    rewrite (insert_simplex_Mem T s r HI Hr). tauto.
+  - cbn [fst snd spec_step]. destruct (remove_simplex_ok T s HI) as [H1 H2]. split; auto.
+    intros r Hr. unfold spec_remove. rewrite andb_true_iff, negb_true_iff, (HK r Hr).
+    change (remove_simplex_gen true T s) with (remove_simplex T s). rewrite (H2 r Hr).
+    rewrite <- not_true_iff_false, subsetb_incl. tauto.
+  - cbn [fst snd spec_step]. destruct (remove_vertex T x) as [R|] eqn:E.
+    + destruct (remove_vertex_ok T x R HI E) as [H1 H2]. split; auto.
+      intros r Hr. unfold spec_remove_vertex. rewrite andb_true_iff, negb_true_iff, (HK r Hr), (H2 r Hr).
+      rewrite <- not_true_iff_false, memv_In. tauto.
+    + split; auto. intros r Hr. unfold spec_remove_vertex. rewrite andb_true_iff, negb_true_iff, (HK r Hr).
+      rewrite <- not_true_iff_false, memv_In. unfold remove_vertex in E. destruct (has_v T x) eqn:Hx; [discriminate|].
+      split; [tauto|]. intros H; split; auto. destruct H as [t [Ht Hi]]. intros Hxr.
+      apply (has_v_false T x Hx t Ht); auto.
+  - pose proof (contraction_refines T K x y (conj HI HK)) as H.
+    destruct (contraction T x y) as [T' k]. exact H.
+Qed.
+
+Lemma Rf_init : Rf [] spec_empty.
+Proof. split; [apply Inv_nil|]. intros r Hr. unfold spec_empty. split; [discriminate|]. intros [t [[] _]]. Qed.
+
+Lemma run_gen_refines : forall h T K, Rf T K -> Rf (fst (run_gen true T K h)) (snd (run_gen true T K h)).
+Proof.
+  induction h as [|o h IH]; intros T K H; cbn [run_gen]; auto.
+  pose proof (step_refines T K o H) as H1. change (step_gen true T o) with (step T o).
+  destruct (step T o) as [T' ret]. apply IH. exact H1.
+Qed.
+
+Lemma run_refines : forall h, Rf (fst (run h)) (snd (run h)).
+Proof. intros h. apply run_gen_refines. apply Rf_init. Qed.
+
+Theorem membership_spec : forall h r, r <> [] -> membership (fst (run h)) r = snd (run h) r.
+Proof.
+  intros h r Hr. destruct (run_refines h) as [_ HK]. apply eq_true_iff_eq.
+  rewrite (HK r Hr). apply membership_iff; auto.
+Qed.
+
+Lemma Anti_NoDup : forall T, Anti T -> NoDup T.
+Proof.
+  induction T as [|a T IH]; cbn; intros H; constructor.
+  - intros Ha. destruct H as [H _]. destruct (H a Ha) as [N _]. apply N. apply incl_refl.
+  - apply IH. apply H.
+Qed.
+
+Theorem antichain_invariant : forall h,
+  let T := fst (run h) in
+  NoDup T /\ (forall t, In t T -> t <> []) /\ (forall a b, In a T -> In b T -> incl a b -> a = b).
+Proof.
+  intros h T. destruct (run_refines h) as [[HN HA] _]. fold T in HN, HA. repeat split; auto.
+  - apply Anti_NoDup; auto.
+  - intros a b; apply Anti_incl_eq; auto.
+Qed.
+
+(* a non-empty simplex is stored iff it is a maximal simplex of the abstract complex *)
+Theorem toplexes_are_maximal_simplices : forall h t, t <> [] ->
+  let T := fst (run h) in let K := snd (run h) in
+  (maximality T t = true <-> K t = true /\ forall r, K r = true -> incl t r -> incl r t).
+Proof.
+  intros h t Ht T K. destruct (run_refines h) as [[HN HA] HK]. fold T in HN, HA, HK. fold K in HK.
+  rewrite (maximality_iff T t Ht). split.
+  - intros [tau [Htau Hq]]. apply seqb_iff in Hq. destruct Hq as [Q1 Q2]. split.
+    + apply HK; auto. exists tau; auto.
+    + intros r Hr Hi. assert (Hrn : r <> []) by (intros ->; apply (incl_nil_inv t Ht); auto).
+      apply HK in Hr; auto. destruct Hr as [t2 [H2 Hi2]].
+      assert (tau = t2). { apply (Anti_incl_eq T tau t2 HA Htau H2). eapply incl_tran; [exact Q2|]. eapply incl_tran; eauto. }
+      subst t2. eapply incl_tran; eauto.
+  - intros [Hk Hmax]. apply HK in Hk; auto. destruct Hk as [tau [Htau Hi]]. exists tau; split; auto.
+    apply seqb_iff; split; auto. apply Hmax; auto. apply HK; [apply HN; auto|]. exists tau; split; auto. apply incl_refl.
+Qed.
+
+Theorem stored_are_maximal : forall h t, In t (fst (run h)) -> 
+  snd (run h) t = true /\ forall r, snd (run h) r = true -> incl t r -> incl r t.
+Proof.
+  intros h t Ht. destruct (run_refines h) as [[HN HA] HK].
+  apply (toplexes_are_maximal_simplices h t (HN t Ht)). apply maximality_iff; [apply HN; auto|].
+  exists t; split; auto. apply seqb_refl.
+Qed.
+
+(* maximal_cofaces(s) lists, up to equality of sets, the stored simplices containing s; maximal_simplices() = the state *)
+Theorem maximal_cofaces_spec : forall h s rho, s <> [] ->
+  let T := fst (run h) in
+  ((exists c, In c (maximal_cofaces T s) /\ seqb rho c = true) <-> (exists t, In t T /\ seqb rho t = true /\ incl s t)).
+Proof.
+  intros h s rho Hs T. destruct (run_refines h) as [[HN HA] _]. fold T in HN, HA.
+  unfold maximal_cofaces. destruct (maximality T s) eqn:Hm.
+  - apply maximality_iff in Hm; auto. destruct Hm as [tau [Htau Hq]]. apply seqb_iff in Hq. split.
+    + intros [c [[<-|[]] Hc]]. apply seqb_iff in Hc. exists tau. split; auto. split; [|tauto].
+      apply seqb_iff. split; eapply incl_tran; try apply Hc; tauto.
+    + intros [t [Ht [Hqt Hi]]]. assert (tau = t). { apply (Anti_incl_eq T tau t HA Htau Ht). eapply incl_tran; [apply Hq|auto]. }
+      subst t. exists s. split; [left; auto|]. apply seqb_iff in Hqt. apply seqb_iff. split; eapply incl_tran; try apply Hqt; tauto.
+  - destruct s as [|x s']; [congruence|]. set (s := x :: s') in *.
+    destruct (best_index_some T s Hs) as [v [Hv ->]]. destruct (has_v T v) eqn:Hh.
+    + split.
+      * intros [c [Hc Hq]]. apply filter_In in Hc. destruct Hc as [Hc1 Hc2]. apply t0_In in Hc1. apply subsetb_incl in Hc2.
+        exists c; tauto.
+      * intros [t [Ht [Hq Hi]]]. exists t. split; auto. apply filter_In. split; [apply t0_In; split; auto|apply subsetb_incl; auto].
+    + split; [intros [c [[] _]]|]. intros [t [Ht [Hq Hi]]]. exfalso. apply (has_v_false T v Hh t Ht); auto.
+Qed.
+
+Theorem maximal_simplices_is_state : forall T, maximal_cofaces T [] = T.
+Proof. reflexivity. Qed.
+
+(* the code as found: removing {1} from the complex of {1,2,3} also removes {2,3} *)
+Theorem remove_simplex_as_found_refuted :
+  exists h r, r <> [] /\ membership (fst (run_as_found h)) r <> snd (run_as_found h) r.
+Proof.
+  exists [Ins [1; 2; 3]; Rem [1]], [2; 3]. split; [congruence|]. vm_compute. congruence.
 Qed.
